@@ -30,22 +30,41 @@ type ITranslatorService interface {
 
 // TranslatorService service that implements all Acra-Translator functions
 type TranslatorService struct {
-	data           *TranslatorData
-	handler        crypto.RegistryHandler
-	poisonDetector *crypto.EnvelopeDetector
+	data             *TranslatorData
+	handler          crypto.RegistryHandler
+	poisonRecognizer *crypto.PoisonRecordDetector
 }
 
 // NewTranslatorService return new initialized TranslatorService
 func NewTranslatorService(translatorData *TranslatorData) (*TranslatorService, error) {
 	registryHandler := crypto.NewRegistryHandler(translatorData.Keystorage)
-	poisonEnvelopeDetector := crypto.NewEnvelopeDetector()
+	service := &TranslatorService{data: translatorData, handler: registryHandler}
 	if translatorData.PoisonRecordCallbacks != nil && translatorData.PoisonRecordCallbacks.HasCallbacks() {
 		// setting PoisonRecords callback for CryptoHandlers inside registry
 		poisonDetector := crypto.NewPoisonRecordsRecognizer(translatorData.Keystorage, registryHandler)
 		poisonDetector.SetPoisonRecordCallbacks(translatorData.PoisonRecordCallbacks)
-		poisonEnvelopeDetector.AddCallback(poisonDetector)
+		service.poisonRecognizer = &poisonDetector
 	}
-	return &TranslatorService{data: translatorData, handler: registryHandler, poisonDetector: poisonEnvelopeDetector}, nil
+	return service, nil
+}
+
+// checkPoisonRecord looks for poison records in data that could not be decrypted: serialized containers at
+// any offset and, as the transparent proxies do, bare AcraStructs/AcraBlocks created by older versions
+// (the decrypt operations accept both forms too).
+func (service *TranslatorService) checkPoisonRecord(ctx context.Context, data []byte) error {
+	if service.poisonRecognizer == nil {
+		return nil
+	}
+	// OldContainerDetectorWrapper keeps state per processed value and requests are served concurrently,
+	// so the detector is assembled per call
+	envelopeDetector := crypto.NewEnvelopeDetector()
+	var detector base.DecryptionSubscriber = envelopeDetector
+	if base.OldContainerDetectionOn {
+		detector = crypto.NewOldContainerDetectorWrapper(envelopeDetector)
+	}
+	envelopeDetector.AddCallback(*service.poisonRecognizer)
+	_, _, err := detector.OnColumn(ctx, data)
+	return err
 }
 
 // Errors possible during decrypting AcraStructs.
@@ -86,7 +105,7 @@ func (service *TranslatorService) Decrypt(ctx context.Context, acraStruct, clien
 		//TODO: remove deprecated metrics in 1-2 versions
 		base.AcrastructDecryptionCounter.WithLabelValues(base.LabelStatusFail).Inc()
 		logger.WithField(logging.FieldKeyEventCode, logging.EventCodeErrorTranslatorCantDecryptAcraStruct).WithError(decryptErr).Errorln("Can't decrypt AcraStruct")
-		_, _, err = service.poisonDetector.OnColumn(dataCtx, acraStruct)
+		err = service.checkPoisonRecord(dataCtx, acraStruct)
 		if err != nil {
 			logger.WithField(logging.FieldKeyEventCode, logging.EventCodeErrorDecryptorCantCheckPoisonRecord).WithError(err).Errorln("Can't check for poison record, possible missing Poison record decryption key")
 			return nil, ErrCantDecrypt
@@ -210,7 +229,7 @@ func (service *TranslatorService) DecryptSearchable(ctx context.Context, data, h
 		// (same as DecryptSymSearchable does)
 		logger.WithField(logging.FieldKeyEventCode, logging.EventCodeErrorTranslatorCantDecryptAcraStruct).
 			Errorln("Can't split ciphertext to hash and encrypted data")
-		if _, _, err := service.poisonDetector.OnColumn(dataCtx, dataToDecrypt); err != nil {
+		if err := service.checkPoisonRecord(dataCtx, dataToDecrypt); err != nil {
 			logger.WithField(logging.FieldKeyEventCode, logging.EventCodeErrorDecryptorCantCheckPoisonRecord).WithError(err).Errorln("Can't check for poison record with AcraStruct, possible missing Poison record decryption key")
 		}
 		return nil, ErrCantDecrypt
@@ -223,7 +242,7 @@ func (service *TranslatorService) DecryptSearchable(ctx context.Context, data, h
 	decrypted, err := service.handler.DecryptWithHandler(handler, containerData, dataContext)
 	if err != nil {
 		logger.WithField(logging.FieldKeyEventCode, logging.EventCodeErrorTranslatorCantDecryptAcraStruct).WithError(err).Errorln("Can't decrypt AcraStruct")
-		_, _, poisonErr := service.poisonDetector.OnColumn(dataCtx, containerData)
+		poisonErr := service.checkPoisonRecord(dataCtx, containerData)
 		if poisonErr != nil {
 			logger.WithField(logging.FieldKeyEventCode, logging.EventCodeErrorDecryptorCantCheckPoisonRecord).WithError(err).Errorln("Can't check for poison record with AcraStruct, possible missing Poison record decryption key")
 			return nil, ErrDecryptionFailed
@@ -389,7 +408,7 @@ func (service *TranslatorService) DecryptSymSearchable(ctx context.Context, data
 		logger.WithField(logging.FieldKeyEventCode, logging.EventCodeErrorTranslatorCantDecryptAcraBlock).
 			WithError(err).
 			Errorln("Can't split ciphertext to hash and encrypted data")
-		_, _, err := service.poisonDetector.OnColumn(dataCtx, dataToDecrypt)
+		err := service.checkPoisonRecord(dataCtx, dataToDecrypt)
 		if err != nil {
 			logger.WithField(logging.FieldKeyEventCode, logging.EventCodeErrorDecryptorCantCheckPoisonRecord).WithError(err).Errorln("Can't check for poison record with AcraBlock, possible missing Poison record decryption key")
 			return nil, ErrCantDecrypt
@@ -399,7 +418,7 @@ func (service *TranslatorService) DecryptSymSearchable(ctx context.Context, data
 	decrypted, err := service.handler.DecryptWithHandler(handler, containerData, dataContext)
 	if err != nil {
 		logger.WithField(logging.FieldKeyEventCode, logging.EventCodeErrorTranslatorCantDecryptAcraBlock).WithError(err).Errorln("Can't decrypt AcraBlock")
-		_, _, err = service.poisonDetector.OnColumn(dataCtx, containerData)
+		err = service.checkPoisonRecord(dataCtx, containerData)
 		if err != nil {
 			logger.WithField(logging.FieldKeyEventCode, logging.EventCodeErrorDecryptorCantCheckPoisonRecord).WithError(err).Errorln("Can't check for poison record with AcraBlock, possible missing Poison record decryption key")
 			return nil, ErrCantDecrypt
@@ -473,7 +492,7 @@ func (service *TranslatorService) DecryptSym(ctx context.Context, acraBlock, cli
 		//TODO: remove deprecated metrics in 1-2 versions
 		base.AcrastructDecryptionCounter.WithLabelValues(base.LabelStatusFail).Inc()
 		logger.WithField(logging.FieldKeyEventCode, logging.EventCodeErrorTranslatorCantDecryptAcraBlock).WithError(err).Errorln("Can't decrypt AcraBlock")
-		_, _, poisonErr := service.poisonDetector.OnColumn(dataCtx, acraBlock)
+		poisonErr := service.checkPoisonRecord(dataCtx, acraBlock)
 		if poisonErr != nil {
 			logger.WithField(logging.FieldKeyEventCode, logging.EventCodeErrorDecryptorCantCheckPoisonRecord).WithError(err).Errorln("Can't check for poison record with AcraBlock, possible missing Poison record decryption key")
 			return nil, ErrCantDecrypt
